@@ -233,6 +233,15 @@ def check_config(ctx, cfg):
         raised = None
     except (ValueError, TypeError) as e:
         got_layout, raised = None, type(e).__name__
+    # asking again gives the same answer: a rejected layout is rejected again (nothing half-built is handed out later), an accepted
+    # one yields the same placement
+    try:
+        mm2 = b.as_memory_map()
+        again = [(tuple(n), s, e) for _, n, (s, e) in mm2.resources()]
+        raised2 = None
+    except (ValueError, TypeError) as e:
+        again, raised2 = None, type(e).__name__
+    same_answer = (again == got_layout and raised2 == raised)
     frozen_ok = True
     try:
         b.add("late", csr.Register(csr.Field(action.RW, 1), access="rw")); frozen_ok = False
@@ -246,11 +255,13 @@ def check_config(ctx, cfg):
                             "replay": {"confirmed": True, "how": "native: this builder history replayed on the real csr.Builder",
                                        "detail": detail}, "cfg": cfg, "known_key": f"{clause}", "solver": "native evaluation"})
     if expected is None:
-        res("rejection_not_adjustment", got_layout is None, f"reference says the layout must be rejected; builder produced {got_layout}")
+        res("rejection_not_adjustment", got_layout is None and again is None,
+            f"reference says the layout must be rejected; builder produced {got_layout}" + (f", and on a second as_memory_map() call {again}" if again is not None else ""))
         res("layout_matches_reference", True, "")
     else:
         exp_sorted = sorted(expected, key=lambda t: t[1])
-        res("layout_matches_reference", got_layout == exp_sorted, f"expected {exp_sorted}, got {got_layout} (raised {raised})")
+        res("layout_matches_reference", got_layout == exp_sorted and same_answer,
+            f"expected {exp_sorted}, got {got_layout} (raised {raised})" + ("" if same_answer else f"; a second as_memory_map() call gave {again} (raised {raised2})"))
         res("rejection_not_adjustment", True, "")
     res("frozen_refuses", frozen_ok, "add() after as_memory_map()/freeze() must raise ValueError")
     res("names_are_scope_paths", not rej, "; ".join(rej))
